@@ -9,8 +9,12 @@
 (* connect / accept / abandon / close in any order, and the dispatcher's   *)
 (* select! may serve any ready source next.                                *)
 (*                                                                         *)
-(* One dispatcher iteration is `cleanup_accept_queue` followed by exactly  *)
-(* one select arm, as in Dispatcher::run_once.  The rule predicates are    *)
+(* One dispatcher iteration is `cleanup_accept_queue`, then the task PARKS  *)
+(* in select! (a separate step: applications and the network move on in    *)
+(* between), then exactly one arm runs, as in Dispatcher::run_once.  (An    *)
+(* earlier version folded cleanup and arm into one atomic step and thereby *)
+(* hid defect D30: a SYN served by the recv arm took an acceptor that had   *)
+(* registered while older SYNs were waiting.)  The rule predicates are     *)
 (* those of SocketTab.tla, which the trace specification UtpTrace.tla      *)
 (* evaluates on every recorded table event of the real dispatcher.         *)
 (*                                                                         *)
@@ -43,6 +47,7 @@ Init ==
           chan     |-> <<>>,      \* acceptor channel
           ctl      |-> <<>>,      \* control channel: [t |-> "connect"|"cdrop"|"shutdown", ...]
           nextCid  |-> 0,
+          parked   |-> FALSE,     \* the dispatcher has run cleanup_accept_queue and waits in select!
           alive    |-> {},        \* stream instances whose task still runs (its receiver exists)
           deadAcc  |-> {},        \* accept calls given up by the application
           deadTok  |-> {},        \* connect calls given up by the application
@@ -115,7 +120,10 @@ OnSyn(t, a, c) ==
     LET key == <<a, Nxt(c, 1)>>
         dup == key \in Keys(t) \/ \E i \in 1 .. Len(t.syns) : t.syns[i].addr = a /\ t.syns[i].c = c
     IN  IF Variant # "no_dedup" /\ dup THEN t
-        ELSE SynLoop([t EXCEPT !.nSyn = @ + 1], [addr |-> a, c |-> c, idx |-> t.nSyn + 1])
+        \* requests that already wait in the backlog are served first: an acceptor that registered while the task was
+        \* parked must not go to the newcomer  (the seeded variant is the code before that repair)
+        ELSE LET t0 == IF Variant = "syn_jumps_backlog" THEN t ELSE Cleanup(t) IN
+             SynLoop([t0 EXCEPT !.nSyn = @ + 1], [addr |-> a, c |-> c, idx |-> t.nSyn + 1])
 
 (***************************************************************************)
 (* on_maybe_connect_ack: an ST_STATE for a key that is not in the table    *)
@@ -159,7 +167,7 @@ OnControl(t, m) ==
     CASE m.t = "connect" ->
             IF Full(t) THEN t
             ELSE IF Cardinality({ p \in t.conn : p.addr = m.addr }) >= Slots THEN t
-            ELSE LET t1 == NextFree(t, m.addr, CidMod)
+            ELSE LET t1 == NextFree(t, m.addr, IF Variant = "short_walk" THEN 0 ELSE CidMod)   \* (seeded: the walk gives up early)
                      cid == t1.nextCid
                      t2  == Flag(t1, "C12.KeyUnique", R_C12_KeyUniquePending(AsTab(t1), <<m.addr, cid>>))
                  IN  [t2 EXCEPT !.conn = @ \cup {[addr |-> m.addr, cid |-> cid, seq |-> m.tok, tok |-> m.tok]},
@@ -196,22 +204,28 @@ StreamEnds(sid) ==      \* the connection task finishes: its receiver is dropped
     /\ LET e == CHOOSE x \in s.streams : x.sid = sid IN
        s' = [s EXCEPT !.alive = @ \ {sid}, !.nEnd = @ + 1, !.ctl = Append(@, [t |-> "shutdown", key |-> e.key])]
 
-\* dispatcher iterations: cleanup, then one select arm
+\* dispatcher iterations, as in Dispatcher::run_once: `cleanup_accept_queue` runs first, then the task WAITS in select!
+\* - applications and the network go on while it is parked, so the arm that is served sees a later state than the
+\* cleanup did.  (Folding cleanup and arm into one atomic step hides exactly that window.)
+DispCleanup ==
+    /\ ~s.parked
+    /\ s' = [Cleanup(s) EXCEPT !.parked = TRUE]
+Arm(t) == [t EXCEPT !.parked = FALSE]
 DispAcceptor ==
-    LET t == Cleanup(s) IN
-    /\ t.ready = 0 /\ t.chan # <<>>
-    /\ s' = [t EXCEPT !.ready = Head(t.chan), !.chan = Tail(@)]
+    /\ s.parked /\ s.ready = 0 /\ s.chan # <<>>
+    /\ s' = Arm([s EXCEPT !.ready = Head(s.chan), !.chan = Tail(@)])
 DispControl ==
-    LET t == Cleanup(s) IN
-    /\ t.ctl # <<>>
-    /\ s' = OnControl([t EXCEPT !.ctl = Tail(@)], Head(t.ctl))
+    /\ s.parked /\ s.ctl # <<>>
+    /\ s' = Arm(OnControl([s EXCEPT !.ctl = Tail(@)], Head(s.ctl)))
 DispSyn(a, c) ==
-    /\ s.nSyn < MaxSyn
-    /\ s' = OnRecv(Cleanup(s), a, c, "syn", 0)
+    /\ s.parked /\ s.nSyn < MaxSyn
+    /\ s' = Arm(OnRecv(s, a, c, "syn", 0))
 DispState(a, c, ack) ==      \* a SYN-ACK (or any ST_STATE): for a pending connect's id, or a stale / foreign one
-    /\ s' = OnRecv(Cleanup(s), a, c, "state", ack)
+    /\ s.parked
+    /\ s' = Arm(OnRecv(s, a, c, "state", ack))
 DispData(a, c) ==
-    /\ s' = OnRecv(Cleanup(s), a, c, "data", 0)
+    /\ s.parked
+    /\ s' = Arm(OnRecv(s, a, c, "data", 0))
 
 Next ==
     \/ \E a \in Addrs : AppConnect(a)
@@ -219,6 +233,7 @@ Next ==
     \/ AppAccept
     \/ \E acc \in 1 .. MaxAccept : AppAcceptAbandon(acc)
     \/ \E sid \in s.alive : StreamEnds(sid)
+    \/ DispCleanup
     \/ DispAcceptor
     \/ DispControl
     \/ \E a \in Addrs, c \in SynCids : DispSyn(a, c)
